@@ -489,7 +489,7 @@ def run_pool_ops(case):
   th.join(60)
   hung = th.is_alive()
   stop_watch.set()
-  acquired = [w.address for w in pool.acquired_workers]
+  acquired = [w.address for w in pool.all_workers if w.is_locked(pool)]    # dead ones too
   died = case.get('die') is not None and any(c[2] == 'die' for c in courier.CALLS)
   for s in servers:
     s.stop()
